@@ -99,15 +99,6 @@ Definition mismatch (c : case) : bool :=
 
 (* ---- the property, as a predicate on what the implementation produced (no model) ---- *)
 
-Definition has_embed_ref (p : package) (tn : name) : bool :=
-  match lookup_ty p tn with
-  | Some t => match t_kind t with
-              | TStruct _ => existsb (fun l => match re_embed l with Some _ => true | None => false end) (t_doc t)
-              | _ => false
-              end
-  | None => false
-  end.
-
 Definition expect (c : case) (q : query) : bool :=
   match lookup_ty (c_pkg c) (q_type q) with
   | None => true
